@@ -1,17 +1,416 @@
-//! module `circle` — streams `circle.*` (not built yet).
+//! module `circle` (serves C05, C06, C18) — the Circle primitive.
+//!
+//! Streams (op lines; every result line is compared with the Lean model `EG.Model.Circle`):
+//!   circle.points x y d
+//!       -> bb=<bounding box> c=<center> pts=<points() list> in=<contains() bitmap, row-major, over
+//!          the bounding box grown by a 3 px margin>
+//!   circle.areas  x y d width align
+//!       -> s=<x,y,d of offset(+outside)> f=<x,y,d of offset(-inside)> sbb=<styled_bounding_box>
+//!          (`stroke_area`/`fill_area` are crate-private: they are `offset(outside_stroke_width)` and
+//!          `offset(-inside_stroke_width)`; the split used here is the documented one, the model
+//!          side uses the model of `PrimitiveStyle`)
+//!   circle.styled x y d fill stroke width align tx ty tw th      (colours `-` or a number; align
+//!          0 = Inside, 1 = Center, 2 = Outside; `tx ty tw th` = bounding box of the target)
+//!       -> log=<call log of draw() on R2> m1=<map of draw() on R1> m2=<map of draw() on R2>
+//!          px=<pixels() sequence, in iteration order>
+//!
+//! Oracle (the property texts as predicates on the real results). Lean statements mirrored:
+//!   C05 `circle_points_eq_filter_contains`, `circle_contains_inside_bbox`;
+//!   C18 `circle_contains_iff_ideal`, `circle_band_small`, `circle_mirror_x/y`,
+//!       `circle_rows_contiguous`, `circle_columns_contiguous`, `circle_touches_sides`;
+//!   C06 `stroke_width_split`, `circle_offset_concentric`, `styled_circle_exact`,
+//!       `inside_stroke_inside`, `outside_stroke_outside`;
+//!   C01 `styled_circle_pixels_eq_draw` (R1 map == R2 map == pixels() map).
 use crate::common::*;
+use embedded_graphics::{
+    pixelcolor::Rgb565,
+    prelude::*,
+    primitives::{Circle, ContainsPoint, OffsetOutline, PrimitiveStyleBuilder, StrokeAlignment},
+};
 
 pub struct M;
+
+fn align_of(i: u32) -> StrokeAlignment {
+    match i {
+        0 => StrokeAlignment::Inside,
+        1 => StrokeAlignment::Center,
+        _ => StrokeAlignment::Outside,
+    }
+}
+
+/// the documented split of the stroke width: (inside part, outside part)
+fn split(width: u32, align: u32) -> (u32, u32) {
+    match align {
+        0 => (width, 0),
+        1 => (width - width / 2, width / 2), // the larger half inside
+        _ => (0, width),
+    }
+}
+
+fn col_tok(t: &str) -> Option<u32> {
+    if t == "-" {
+        None
+    } else {
+        Some(t.parse().expect("bad colour"))
+    }
+}
+
+fn fmt_circle(c: &Circle) -> String {
+    format!("{},{},{}", c.top_left.x, c.top_left.y, c.diameter)
+}
+
+/// ideal membership in doubled coordinates: |2p + 1 - (2 tl + d)|^2 compared with `bound`
+fn dist2(c: &Circle, p: Point) -> i64 {
+    let cx = 2 * c.top_left.x as i64 + c.diameter as i64 - 1;
+    let cy = 2 * c.top_left.y as i64 + c.diameter as i64 - 1;
+    let dx = 2 * p.x as i64 - cx;
+    let dy = 2 * p.y as i64 - cy;
+    dx * dx + dy * dy
+}
+
+const UNB: (i32, i32, u32, u32) = (-(1 << 20), -(1 << 20), 1 << 21, 1 << 21);
 
 impl Module for M {
     fn name(&self) -> &'static str {
         "circle"
     }
     fn rule(&self) -> &'static str {
-        "not built yet"
+        "circle.points: every diameter 0..=24 (thorough 0..=130) at 3 positions (origin, negative, axis-crossing) plus seeded random \
+         positions/diameters; circle.styled: diameters 0..=14 x widths 0..=5 and d+2 x 3 alignments x 4 colour options x 3 target \
+         boxes (unbounded, clipping box not at the origin, empty), thorough adds diameters to 130 / widths to 10 at random positions; \
+         circle.areas: same diameters x widths x alignments. Non-trivial: diameter >= 1 (points), diameter >= 1 and a colour set (styled); \
+         distinct = distinct op text."
     }
-    fn generate(&self, _pid: &str, _tier: Tier, _rng: &mut Rng, _emit: &mut dyn FnMut(String)) {}
-    fn execute(&self, op: &str, _ctx: &mut Ctx) -> String {
-        panic!("unknown op {}", op)
+
+    fn generate(&self, pid: &str, tier: Tier, rng: &mut Rng, emit: &mut dyn FnMut(String)) {
+        let quick = tier == Tier::Quick;
+        let pos: [(i32, i32); 3] = [(0, 0), (-40, -17), (-5, -3)];
+        if pid == "C05" || pid == "C18" {
+            let dmax: u32 = if quick { 24 } else { 130 };
+            for d in 0..=dmax {
+                for (k, (x, y)) in pos.iter().enumerate() {
+                    if d > 40 && k != (d as usize % 3) {
+                        continue;
+                    }
+                    emit(format!("circle.points {} {} {}", x, y, d));
+                }
+            }
+            let n = if quick { 60 } else { 600 };
+            for _ in 0..n {
+                let scale = *rng.pick(&[8i64, 64, 1024, 1 << 20]);
+                let x = rng.range(-scale, scale);
+                let y = rng.range(-scale, scale);
+                let d = if quick { rng.range(0, 40) } else { rng.range(0, 130) };
+                emit(format!("circle.points {} {} {}", x, y, d));
+            }
+        }
+        if pid == "C06" {
+            let cols: [(&str, &str); 4] = [("7", "-"), ("-", "9"), ("7", "9"), ("-", "-")];
+            let boxes: [(i32, i32, u32, u32); 3] = [UNB, (2, 1, 7, 6), (0, 0, 0, 0)];
+            let dmax: u32 = 14;
+            for d in 0..=dmax {
+                let mut widths: Vec<u32> = (0..=5).collect();
+                if d + 2 > 5 {
+                    widths.push(d + 2);
+                }
+                for w in widths {
+                    for a in 0..3u32 {
+                        let (x, y) = pos[((d + w + a) % 3) as usize];
+                        emit(format!("circle.areas {} {} {} {} {}", x, y, d, w, a));
+                        for (f, s) in cols.iter() {
+                            for (bi, b) in boxes.iter().enumerate() {
+                                // the clipping box is placed relative to the circle so that it really clips
+                                let (bx, by) = if bi == 1 { (x + b.0, y + b.1) } else { (b.0, b.1) };
+                                emit(format!(
+                                    "circle.styled {} {} {} {} {} {} {} {} {} {} {}",
+                                    x, y, d, f, s, w, a, bx, by, b.2, b.3
+                                ));
+                            }
+                        }
+                    }
+                }
+            }
+            // larger / random cases
+            let n = if quick { 150 } else { 3000 };
+            for _ in 0..n {
+                let scale = *rng.pick(&[8i64, 64, 1024]);
+                let x = rng.range(-scale, scale);
+                let y = rng.range(-scale, scale);
+                let d = if quick { rng.range(0, 40) } else { rng.range(0, 130) };
+                let w = if rng.chance(1, 8) { d + rng.range(0, 3) } else { rng.range(0, if quick { 7 } else { 10 }) };
+                let a = rng.below(3);
+                let (f, s) = *rng.pick(&cols);
+                emit(format!("circle.areas {} {} {} {} {}", x, y, d, w, a));
+                let b = if rng.chance(1, 3) {
+                    (x + rng.range(-3, d / 2), y + rng.range(-3, d / 2), rng.range(0, d + 4), rng.range(0, d + 4))
+                } else {
+                    (UNB.0 as i64, UNB.1 as i64, UNB.2 as i64, UNB.3 as i64)
+                };
+                emit(format!("circle.styled {} {} {} {} {} {} {} {} {} {} {}", x, y, d, f, s, w, a, b.0, b.1, b.2, b.3));
+            }
+        }
+    }
+
+    fn execute(&self, op: &str, ctx: &mut Ctx) -> String {
+        let mut t = Toks::new(op);
+        match t.str() {
+            "circle.points" => {
+                let tl = t.point();
+                let d = t.u32();
+                let c = Circle::new(tl, d);
+                ctx.count("points");
+                ctx.count(if d <= 4 { "points:d<=4" } else { "points:d>4" });
+                if d >= 1 {
+                    ctx.nontrivial(op);
+                }
+                let bb = c.bounding_box();
+                let pts: Vec<Point> = c.points().collect();
+                let m = 3i32;
+                let (x0, y0) = (tl.x - m, tl.y - m);
+                let (x1, y1) = (tl.x + d as i32 + m, tl.y + d as i32 + m);
+                let mut bits = String::new();
+                let mut accepted: Vec<Point> = Vec::new();
+                let mut outside_bb = None;
+                let mut not_ideal = None;
+                let mut off_band = None;
+                let mut asym = None;
+                let dd = d as i64;
+                for y in y0..y1 {
+                    for x in x0..x1 {
+                        let p = Point::new(x, y);
+                        let inside = c.contains(p);
+                        bits.push(if inside { '1' } else { '0' });
+                        if inside {
+                            accepted.push(p);
+                            if !bb.contains(p) {
+                                outside_bb = Some(p);
+                            }
+                        }
+                        // C18: pixel centre strictly inside the ideal circle (doubled coordinates)
+                        let d2 = dist2(&c, p);
+                        if d > 4 && inside != (d2 < dd * dd) {
+                            not_ideal = Some(p);
+                        }
+                        // band of half a pixel: contains -> dist < r + 1/2 ; dist <= r - 1/2 -> contains
+                        if (inside && !(d2 < (dd + 1) * (dd + 1))) || (d >= 1 && d2 <= (dd - 1) * (dd - 1) && !inside) {
+                            off_band = Some(p);
+                        }
+                        // mirror symmetry about both centre lines
+                        let mx = Point::new(2 * tl.x + d as i32 - 1 - x, y);
+                        let my = Point::new(x, 2 * tl.y + d as i32 - 1 - y);
+                        if d >= 1 && (c.contains(mx) != inside || c.contains(my) != inside) {
+                            asym = Some(p);
+                        }
+                    }
+                }
+                // C05
+                ctx.expect(pts == accepted, "C05:circle-points-ne-contains", || {
+                    format!("points {} vs contains {}", fmt_pts(pts.iter().copied()), fmt_pts(accepted.iter().copied()))
+                });
+                ctx.expect(outside_bb.is_none(), "C05:circle-contains-outside-bbox", || format!("{:?}", outside_bb));
+                ctx.expect(pts.iter().all(|p| bb.contains(*p)), "C05:circle-points-outside-bbox", || "points() outside bounding box".into());
+                ctx.expect(
+                    pts.windows(2).all(|w| (w[0].y, w[0].x) < (w[1].y, w[1].x)),
+                    "C05:circle-points-not-row-major-once",
+                    || fmt_pts(pts.iter().copied()),
+                );
+                // far-away probes: contains() is false outside the box
+                let far = [
+                    Point::new(tl.x - 1000, tl.y),
+                    Point::new(tl.x + d as i32 + 1000, tl.y + d as i32 / 2),
+                    Point::new(tl.x + d as i32 / 2, tl.y - 1000),
+                    Point::new(tl.x + d as i32 / 2, tl.y + d as i32 + 1000),
+                ];
+                ctx.expect(far.iter().all(|p| !c.contains(*p)), "C05:circle-contains-outside-bbox", || "far probe accepted".into());
+                // C18
+                ctx.expect(not_ideal.is_none(), "C18:circle-not-ideal", || format!("{:?}", not_ideal));
+                ctx.expect(off_band.is_none(), "C18:circle-outside-half-pixel-band", || format!("{:?}", off_band));
+                ctx.expect(asym.is_none(), "C18:circle-not-mirror-symmetric", || format!("{:?}", asym));
+                {
+                    // rows and columns contiguous
+                    let mut ok_rows = true;
+                    let mut ok_cols = true;
+                    for y in y0..y1 {
+                        let xs: Vec<i32> = accepted.iter().filter(|p| p.y == y).map(|p| p.x).collect();
+                        if !xs.is_empty() && (xs[xs.len() - 1] - xs[0] + 1) as usize != xs.len() {
+                            ok_rows = false;
+                        }
+                    }
+                    for x in x0..x1 {
+                        let mut ys: Vec<i32> = accepted.iter().filter(|p| p.x == x).map(|p| p.y).collect();
+                        ys.sort();
+                        if !ys.is_empty() && (ys[ys.len() - 1] - ys[0] + 1) as usize != ys.len() {
+                            ok_cols = false;
+                        }
+                    }
+                    ctx.expect(ok_rows, "C18:circle-row-not-contiguous", || fmt_pts(accepted.iter().copied()));
+                    ctx.expect(ok_cols, "C18:circle-column-not-contiguous", || fmt_pts(accepted.iter().copied()));
+                }
+                if d >= 1 {
+                    let minx = accepted.iter().map(|p| p.x).min();
+                    let maxx = accepted.iter().map(|p| p.x).max();
+                    let miny = accepted.iter().map(|p| p.y).min();
+                    let maxy = accepted.iter().map(|p| p.y).max();
+                    ctx.expect(
+                        minx == Some(tl.x) && maxx == Some(tl.x + d as i32 - 1) && miny == Some(tl.y) && maxy == Some(tl.y + d as i32 - 1),
+                        "C18:circle-not-touching-bbox-sides",
+                        || format!("x {:?}..{:?} y {:?}..{:?}", minx, maxx, miny, maxy),
+                    );
+                } else {
+                    ctx.expect(accepted.is_empty(), "C18:circle-not-touching-bbox-sides", || "d=0 has points".into());
+                }
+                format!("bb={} c={} pts={} in={}", fmt_rect(&bb), fmt_pt(c.center()), fmt_pts(pts), bits)
+            }
+            "circle.areas" => {
+                let tl = t.point();
+                let d = t.u32();
+                let w = t.u32();
+                let a = t.u32();
+                let c = Circle::new(tl, d);
+                let (ins, out) = split(w, a);
+                ctx.count("areas");
+                ctx.expect(ins + out == w, "C06:stroke-width-split", || format!("{} + {} != {}", ins, out, w));
+                let sa = c.offset(out as i32);
+                let fa = c.offset(-(ins as i32));
+                let style = PrimitiveStyleBuilder::<Rgb565>::new()
+                    .stroke_color(Rgb565::from_num(9))
+                    .stroke_width(w)
+                    .stroke_alignment(align_of(a))
+                    .build();
+                let sbb = c.into_styled(style).bounding_box();
+                if d >= 1 {
+                    ctx.nontrivial(op);
+                    // grown on every side by the outside part
+                    ctx.expect(
+                        sa.top_left == tl - Point::new(out as i32, out as i32) && sa.diameter == d + 2 * out,
+                        "C06:circle-stroke-area-not-grown-by-outside-width",
+                        || fmt_circle(&sa),
+                    );
+                    ctx.expect(sbb == sa.bounding_box(), "C06:circle-styled-bbox-ne-stroke-area-bbox", || fmt_rect(&sbb));
+                    if d > 2 * ins {
+                        ctx.count("areas:fill-nondegenerate");
+                        ctx.expect(
+                            fa.top_left == tl + Point::new(ins as i32, ins as i32) && fa.diameter == d - 2 * ins,
+                            "C06:circle-fill-area-not-shrunk-by-inside-width",
+                            || fmt_circle(&fa),
+                        );
+                    } else {
+                        ctx.count("areas:fill-collapsed");
+                        ctx.expect(fa.diameter == 0, "C06:circle-fill-area-not-shrunk-by-inside-width", || fmt_circle(&fa));
+                    }
+                }
+                format!("s={} f={} sbb={}", fmt_circle(&sa), fmt_circle(&fa), fmt_rect(&sbb))
+            }
+            "circle.styled" => {
+                let tl = t.point();
+                let d = t.u32();
+                let fill = col_tok(t.str());
+                let stroke = col_tok(t.str());
+                let w = t.u32();
+                let a = t.u32();
+                let tbox = t.rect();
+                let c = Circle::new(tl, d);
+                let mut sb = PrimitiveStyleBuilder::<Rgb565>::new().stroke_width(w).stroke_alignment(align_of(a));
+                if let Some(f) = fill {
+                    sb = sb.fill_color(Rgb565::from_num(f));
+                }
+                if let Some(s) = stroke {
+                    sb = sb.stroke_color(Rgb565::from_num(s));
+                }
+                let style = sb.build();
+                let styled = c.into_styled(style);
+                ctx.count("styled");
+                ctx.count(match (fill.is_some(), stroke.is_some()) {
+                    (true, false) => "styled:fill-only",
+                    (false, true) => "styled:stroke-only",
+                    (true, true) => "styled:both",
+                    (false, false) => "styled:none",
+                });
+                ctx.count(match a {
+                    0 => "styled:inside",
+                    1 => "styled:center",
+                    _ => "styled:outside",
+                });
+                let (ins, out) = split(w, a);
+                if 2 * ins >= d {
+                    ctx.count("styled:fill-collapsed");
+                }
+                if tbox.is_zero_sized() {
+                    ctx.count("styled:target-empty");
+                }
+                if d >= 1 && (fill.is_some() || stroke.is_some()) {
+                    ctx.nontrivial(op);
+                }
+                let mut r1 = R1::<Rgb565>::new(tbox);
+                let mut r2 = R2::<Rgb565>::new(tbox);
+                let mut r3 = R1::<Rgb565>::new(tbox);
+                let e1 = styled.draw(&mut r1);
+                let e2 = styled.draw(&mut r2);
+                let px: Vec<((i32, i32), u32)> = styled.pixels().map(|Pixel(p, c)| ((p.x, p.y), c.num())).collect();
+                let e3 = r3.draw_iter(styled.pixels());
+                ctx.expect(e1.is_ok() && e2.is_ok() && e3.is_ok(), "circle-draw-error", || "draw returned Err".into());
+                // C01: one image whichever path
+                ctx.expect(r1.rec.map == r2.rec.map, "circle-paths-differ:r1-r2", || {
+                    format!("R1 {} R2 {}", r1.rec.fmt_map(), r2.rec.fmt_map())
+                });
+                ctx.expect(r1.rec.map == r3.rec.map, "circle-paths-differ:draw-pixels", || {
+                    format!("draw {} pixels {}", r1.rec.fmt_map(), r3.rec.fmt_map())
+                });
+                // C06: the map follows fill_area / stroke_area
+                let sa = c.offset(out as i32);
+                let fa = c.offset(-(ins as i32));
+                let g = (out + 3) as i32;
+                let mut bad = None;
+                let mut inside_viol = None;
+                let mut outside_viol = None;
+                let mut painted = 0usize;
+                for y in (tl.y - g)..(tl.y + d as i32 + g) {
+                    for x in (tl.x - g)..(tl.x + d as i32 + g) {
+                        let p = Point::new(x, y);
+                        let want: Option<u32> = if !tbox.contains(p) {
+                            None
+                        } else if fa.contains(p) {
+                            fill
+                        } else if sa.contains(p) && w > 0 {
+                            stroke
+                        } else {
+                            None
+                        };
+                        let got = r1.rec.map.get(&(y, x)).copied();
+                        if got.is_some() {
+                            painted += 1;
+                        }
+                        if got != want {
+                            bad = Some((p, got, want));
+                        }
+                        // an inside stroke never paints outside the shape, an outside stroke never inside it
+                        if a == 0 && got.is_some() && !c.contains(p) {
+                            inside_viol = Some(p);
+                        }
+                        if a == 2 && got.is_some() && got == stroke && fill != stroke && c.contains(p) {
+                            outside_viol = Some(p);
+                        }
+                    }
+                }
+                ctx.expect(bad.is_none(), "C06:circle-styled-map-ne-areas", || format!("{:?}", bad));
+                ctx.expect(painted == r1.rec.map.len(), "C06:circle-styled-paints-outside-stroke-area-box", || {
+                    format!("{} painted in the probe box, {} in the map", painted, r1.rec.map.len())
+                });
+                ctx.expect(inside_viol.is_none(), "C06:circle-inside-stroke-paints-outside-shape", || format!("{:?}", inside_viol));
+                ctx.expect(outside_viol.is_none(), "C06:circle-outside-stroke-paints-inside-shape", || format!("{:?}", outside_viol));
+                let mut pxs = String::new();
+                for (i, ((x, y), c)) in px.iter().enumerate() {
+                    if i > 0 {
+                        pxs.push(';');
+                    }
+                    pxs.push_str(&format!("{},{},{}", x, y, c));
+                }
+                if pxs.is_empty() {
+                    pxs.push('-');
+                }
+                format!("log={} m1={} m2={} px={}", r2.rec.fmt_log(), r1.rec.fmt_map(), r2.rec.fmt_map(), pxs)
+            }
+            other => panic!("unknown op {}", other),
+        }
     }
 }
